@@ -65,7 +65,9 @@ class PaneBase:
     ):
         old_params = getattr(cls, '__parameters__', ())
         super().__init_subclass__(*args, **kwargs)
-        setattr(cls, '__parameters__', old_params + getattr(cls, '__parameters__', ()))
+        # (a variable forwarded to a base and listed again in `Generic[...]` is one parameter, not two)
+        new_params = tuple(p for p in getattr(cls, '__parameters__', ()) if p not in old_params)
+        setattr(cls, '__parameters__', old_params + new_params)
 
         if rename is not None:
             if in_rename is not None or out_rename is not None:
